@@ -1478,6 +1478,9 @@ def run(chk, cases=None):
                         "sub_case": m["sub"], "sub_impl": m["sub_out"]})
     chk.extra["metamorphic_cases"] = nmeta
     source_tie(chk, cases, outs)
+    import sys
+    from props import c09_tie    # second source tie: the translated chunk_by_slices / pad_masked_sequence on this run's cases
+    c09_tie.source_tieB(sys.modules[__name__], chk, cases, outs)
     chk.extra["variant_disagreements"] = len(alt_bad)
     for i, a, oa in alt_bad[:6]:
         heavy = not model_affordable(cases[i])
